@@ -162,7 +162,13 @@ async fn history(out: &mut Out, rng: &mut Rng, corpus: bool) {
                     }
                 };
                 out.count(&format!("op:{}", kind));
-                let (_reply, delta) = node.h.execute(cmd).await;
+                let (reply, delta) = node.h.execute(cmd).await;
+                if matches!(reply, redis_sim::redis::RespValue::Error(_)) && delta.is_none() {
+                    // the executor rejected the command (e.g. HSET on a string key): the glue does
+                    // not touch the replication state, so there is no model op for it
+                    out.count("local-command-rejected-by-executor");
+                    continue;
+                }
                 let ans = match &delta {
                     Some(d) => format!("eff={} delta {}", eff as u8, MRv::from_real(&d.value).show()),
                     None => format!("eff={} none", eff as u8),
